@@ -271,6 +271,9 @@ _CORE_FILTER_LM = [
 _CORE_RANGES = [
     [[1]], [[-1]], [[2, None]], [[None, 2]], [[2, 3]], [[-2, None]], [[None, -2]], [[1], [-1]], [[7]],
     [[3], [1]], [[1, 2], [-2, None]], [[2, 1]],
+    # ranges that overlap, lie inside one another, or touch (every order of listing)
+    [[2, 5], [3, 4]], [[3, 4], [2, 5]], [[2, 4], [3, 6]], [[2, 3], [4, 5]], [[2, None], [3, 4]], [[-5, -2], [-4, -3]],
+    [[2, 6], [3], [5]], [[4, 5], [2, 6], [3]],
 ]
 _CORE_GREP = [('a', False, False), ('a', True, False), ('[ab]*', True, False), ('A', False, True),
               ('^$', False, False), ('$', False, False), ('\\s', False, False), ('.', False, False)]
@@ -577,10 +580,11 @@ def gen_matcher(rng, text, d, line_level=False):
 
 def gen_ranges(rng, n):
     def bound():
-        return rng.choice([1, 1, 2, 2, 3, n, max(1, n - 1), n + 1, -1, -1, -2, -n if n else -1, -(n + 1)])
+        return rng.choice([1, 1, 2, 2, 3, n, max(1, n - 1), n + 1, -1, -1, -2, -n if n else -1, -(n + 1),
+                           rng.randint(1, max(1, n)), rng.randint(2, max(2, n)), -rng.randint(1, max(1, n))])
 
     rs = []
-    for _ in range(rng.choice([1, 1, 1, 2, 2, 3])):
+    for _ in range(rng.choice([1, 1, 1, 2, 2, 3, 3, 4])):
         f = rng.randrange(4)
         if f == 0:
             rs.append([bound()])
